@@ -67,6 +67,12 @@ def run(ctx):
                 files = [["big.txt", content]]
                 cases.append({"op": "files", "src_hex": vh.hexs(src), "files": [["big.txt", vh.hexs(content)], ["bystander.dat", vh.hexs("do not touch")]], "search": ["big.txt"], "mode": mode})
                 meta.append((src, "replace", mode, files, False))
+    # replacements longer for some matches and shorter for others, the differences cancelling out (same size, everything between the matches has to move)
+    for src, content in (("replace all at least 1 'a' with 'bb'", "a.aaa!"), ("replace all at least 1 digit with 'NUM'", "id 12345, n 7 end"),
+                         ("replace all at least 1 'a' with 'bb'", "aaa.a"), ("replace all ('x' or 'yyy') with 'zz'", "x-yyy-x-yyy"), ("replace all at least 1 'a' with 'bb'", "a.aaa.aa.aa")):
+        for mode in ("NEW", "OVERWRITE", "NOTHING"):
+            cases.append({"op": "files", "src_hex": vh.hexs(src), "files": [["f.txt", vh.hexs(content)], ["bystander.dat", vh.hexs("do not touch")]], "search": ["f.txt"], "mode": mode})
+            meta.append((src, "replace", mode, [["f.txt", content]], False))
     res = vh.run_cases(cases, shards=8)
     # model: what each replace command writes
     lines = []
